@@ -1,7 +1,8 @@
 // BOUNDED native twin for C08 (never counted as proved): the reported score equals a straightforward
 // reference minimax (unpruned, uncached) and the returned move attains it, for a fresh context and for one
 // context reused along a game.  Bound: 6 opening positions + 3 endgames at depths 1..3 (fresh context), and
-// 4 games of 8 plies at depth 3 with one reused context.
+// 4 games of 8 plies at depth 3 with one reused context; one context through 16 unrelated positions (values far
+// apart in both directions, both sides to move) at depths 2 and 3.
 include!("common.rs");
 use chess::alpha_beta_searcher::{alpha_beta_search, SearchContext};
 use chess::evaluate;
@@ -61,6 +62,31 @@ fn reused_context_reports_exact_minimax() {
                 Some(m) => { m.apply(&mut b).unwrap(); b.toggle_turn(); }
                 None => break,
             }
+        }
+    }
+}
+
+/// "all prior sequences of searches performed with the same context": one context taken through unrelated
+/// positions whose values lie far apart in both directions, for both sides to move
+#[test]
+fn context_reused_across_unrelated_positions_reports_exact_minimax() {
+    let wq = |turn| setup(&[(E1, Piece::King, Color::White), (D1, Piece::Queen, Color::White), (E8, Piece::King, Color::Black), (H7, Piece::Pawn, Color::Black)], turn);
+    let bq = |turn| setup(&[(E1, Piece::King, Color::White), (H2, Piece::Pawn, Color::White), (E8, Piece::King, Color::Black), (D8, Piece::Queen, Color::Black)], turn);
+    let wr = |turn| setup(&[(E1, Piece::King, Color::White), (A1, Piece::Rook, Color::White), (A2, Piece::Pawn, Color::White), (E8, Piece::King, Color::Black), (B8, Piece::Knight, Color::Black)], turn);
+    let br = |turn| setup(&[(E1, Piece::King, Color::White), (B1, Piece::Knight, Color::White), (E8, Piece::King, Color::Black), (A8, Piece::Rook, Color::Black), (A7, Piece::Pawn, Color::Black)], turn);
+    let eq = |turn| setup(&[(E1, Piece::King, Color::White), (C2, Piece::Pawn, Color::White), (E8, Piece::King, Color::Black), (F7, Piece::Pawn, Color::Black)], turn);
+    use Color::{Black as B, White as W};
+    let seq: Vec<(&str, Board)> = vec![
+        ("white queen, W", wq(W)), ("black queen, W", bq(W)), ("white queen, B", wq(B)), ("black queen, B", bq(B)),
+        ("white rook, W", wr(W)), ("black rook, B", br(B)), ("pawns, W", eq(W)),
+        ("black queen, W (2)", bq(W)), ("white queen, W (2)", wq(W)), ("black queen, B (2)", bq(B)), ("white queen, B (2)", wq(B)),
+        ("black rook, W", br(W)), ("white rook, B", wr(B)), ("pawns, B", eq(B)), ("white queen, W (3)", wq(W)), ("black rook, B (2)", br(B)),
+    ];
+    for depth in 2u8..=3 {
+        let mut ctx = SearchContext::new(depth);
+        for (i, (name, b0)) in seq.iter().enumerate() {
+            let mut b = b0.clone();
+            check(&format!("reused context, search {} ({})", i + 1, name), &mut b, &mut ctx, depth);
         }
     }
 }
